@@ -863,6 +863,228 @@ Proof.
   - rewrite C1. cbn [app]. exact Hlen.
 Qed.
 
+(* ------------------------------------------------------------ the monitor itself implies retention *)
+
+(* The retention clause is not a separate conjunct of the monitor: it follows
+   from the per-step conditions.  This is proved here about the MONITOR, for
+   arbitrary observations (not only the model's): any run the monitor accepts
+   keeps a used, undeleted, unexpired key while fewer than `capacity` distinct
+   other keys are used.  So the monitor states no less than the property. *)
+
+Lemma subset_true_incl a b : subset a b = true -> incl a b.
+Proof.
+  unfold subset. intros H y Hy. rewrite forallb_forall in H. apply memk_In, H, Hy.
+Qed.
+
+Lemma nodupb_true l : nodupb l = true -> NoDup l.
+Proof.
+  induction l as [|a l IH]; cbn [nodupb]; intros H; [constructor|].
+  apply andb_prop in H. destruct H as [H1 H2]. apply negb_true_iff, memk_false in H1.
+  constructor; [exact H1|apply IH, H2].
+Qed.
+
+Lemma bump_In y k l : In y (bump k l) <-> (In y l /\ y <> k) \/ y = k.
+Proof.
+  unfold bump. rewrite in_app_iff, remove_key_In. cbn. split.
+  - intros [H|[H|[]]]; [left; exact H|right; congruence].
+  - intros [H|H]; [left; exact H|right; left; congruence].
+Qed.
+
+Lemma bump_use_incl u l : incl l (bump_use u l).
+Proof.
+  destruct u as [k|]; cbn [bump_use]; [|apply incl_refl]. intros y Hy. apply bump_In.
+  destruct (N.eq_dec y k); [right; assumption|left; tauto].
+Qed.
+
+Lemma removed_In before after y : In y before -> ~ In y after -> In y (removed before after).
+Proof.
+  intros Hb Ha. unfold removed. apply filter_In. split; [exact Hb|].
+  unfold absent_from. apply negb_true_iff, memk_false, Ha.
+Qed.
+
+(* if k is the first present key of the recency list, every other present key
+   of that list is behind k *)
+Lemma first_present_behind ks lru k rest y :
+  filter (present_in ks) lru = k :: rest -> In y lru -> In y ks -> y <> k -> In y (behind k lru).
+Proof.
+  induction lru as [|a lru IH]; cbn [filter behind]; [discriminate|].
+  intros F Hy Hk Hne. destruct (present_in ks a) eqn:Pa.
+  - inversion F; subst a. rewrite N.eqb_refl. destruct Hy as [Hy|Hy]; [congruence|exact Hy].
+  - destruct Hy as [<-|Hy].
+    + unfold present_in in Pa. apply memk_false in Pa. tauto.
+    + destruct (N.eqb_spec k a) as [<-|Hka]; [exact Hy|]. apply IH; assumption.
+Qed.
+
+Lemma is_expired_other_set rh now t k k' v ttl :
+  k <> k' -> is_expired ((t, OSet k' v ttl) :: rh) now k = is_expired rh now k.
+Proof.
+  intros Hne. unfold is_expired. cbn [latest_rev]. apply N.eqb_neq in Hne. rewrite Hne. reflexivity.
+Qed.
+
+Lemma is_expired_own_set rh t k v ttl : is_expired ((t, OSet k v ttl) :: rh) t k = Z.ltb ttl 0.
+Proof.
+  unfold is_expired. cbn [latest_rev]. rewrite N.eqb_refl.
+  destruct (Z.ltb_spec (t + ttl) t), (Z.ltb_spec ttl 0); try reflexivity; lia.
+Qed.
+
+(* bookkeeping carried along an accepted run *)
+Lemma step_ok_keeps capacity rh lru before now o out after :
+  step_ok capacity rh lru before now o out after = true ->
+  incl before lru ->
+  NoDup after /\ incl after (bump_use (use_of o out) lru).
+Proof.
+  unfold step_ok. intros H Hi. apply andb_prop in H. destruct H as [H H3].
+  apply andb_prop in H. destruct H as [H1 _]. split; [apply nodupb_true, H1|].
+  assert (Hl : incl before (bump_use (use_of o out) lru)).
+  { intros y Hy. apply bump_use_incl, Hi, Hy. }
+  destruct o as [k v ttl|k|k|]; apply andb_prop in H3; destruct H3 as [H3 _].
+  - cbn [use_of bump_use]. intros y Hy. apply (subset_true_incl _ _ H3) in Hy. destruct Hy as [<-|Hy].
+    + apply bump_In. right; reflexivity.
+    + apply Hl, Hy.
+  - intros y Hy. apply Hl, (subset_true_incl _ _ H3), Hy.
+  - intros y Hy. apply Hl, (subset_true_incl _ _ H3), Hy.
+  - intros y Hy. apply Hl, (subset_true_incl _ _ H3), Hy.
+Qed.
+
+(* one accepted step keeps k and the rank invariant *)
+Lemma step_ok_retains capacity rh lru before now o out after k U :
+  step_ok capacity rh lru before now o out after = true ->
+  NoDup before -> incl before lru ->
+  In k before -> In k lru -> incl (behind k lru) U ->
+  o <> ODel k -> (forall v ttl, o = OSet k v ttl -> 0 <= ttl) ->
+  is_expired rh now k = false ->
+  (length (nodup N.eq_dec (U ++ remove_key k (use_list o out))) < capacity)%nat ->
+  In k after
+  /\ In k (bump_use (use_of o out) lru)
+  /\ incl (behind k (bump_use (use_of o out) lru)) (U ++ remove_key k (use_list o out)).
+Proof.
+  intros H ND Hi Hk Hkl Hb Hdel Httl Hlive Hlen.
+  assert (Kl : In k (bump_use (use_of o out) lru)) by (apply bump_use_incl, Hkl).
+  split; [|split; [exact Kl|]].
+  - (* k stays *)
+    destruct (in_dec N.eq_dec k after) as [Hin|Hout]; [exact Hin|exfalso].
+    pose proof (removed_In before after k Hk Hout) as Hr.
+    unfold step_ok in H. apply andb_prop in H. destruct H as [_ H].
+    destruct o as [k' v ttl|k'|k'|].
+    + apply andb_prop in H. destruct H as [Hs H].
+      destruct (memk k' after && negb (memk k' before) && Nat.leb capacity (length before)) eqn:C.
+      * (* a new key into a full cache: k would have to be the victim *)
+        apply andb_prop in C. destruct C as [C C3]. apply andb_prop in C. destruct C as [C1 C2].
+        apply memk_In in C1. apply negb_true_iff, memk_false in C2. apply Nat.leb_le in C3.
+        assert (Hne : k <> k') by (intros ->; tauto).
+        destruct (removed before after) as [|x [|x2 l]] eqn:R; try discriminate.
+        destruct Hr as [<-|[]]. unfold victim_ok in H.
+        destruct (filter (is_expired rh now) before) as [|a l] eqn:F.
+        -- destruct (filter (present_in before) lru) as [|y rest] eqn:F2; [discriminate|].
+           apply N.eqb_eq in H. subst y.
+           (* every other present key is behind k, and k' is new *)
+           assert (ND2 : NoDup (remove_key x before ++ [k'])).
+           { apply NoDup_snoc; [apply remove_key_NoDup, ND|]. rewrite remove_key_In. tauto. }
+           assert (I2 : incl (remove_key x before ++ [k']) (U ++ remove_key x (use_list (OSet k' v ttl) out))).
+           { unfold use_list. cbn [use_of remove_key]. apply N.eqb_neq in Hne. rewrite Hne.
+             apply incl_app; [|apply incl_appr, incl_refl]. apply incl_appl.
+             intros y Hy. apply remove_key_In in Hy. destruct Hy as [Hy1 Hy2]. apply Hb.
+             apply (first_present_behind before lru x rest y F2); [apply Hi, Hy1|exact Hy1|exact Hy2]. }
+           pose proof (nodup_length_incl _ _ ND2 I2) as Q. rewrite app_length in Q. cbn [length] in Q.
+           pose proof (remove_key_length_In x before ND Hk). lia.
+        -- (* an expired entry exists: the victim is expired, k is not *)
+           apply memk_In in H. rewrite <- F in H. apply filter_In in H. destruct H as [_ H]. congruence.
+      * apply andb_prop in H. destruct H as [Hst H]. rewrite forallb_forall in H. specialize (H k Hr).
+        destruct (N.eq_dec k k') as [<-|Hne].
+        -- rewrite is_expired_own_set in H. specialize (Httl v ttl eq_refl). lia.
+        -- rewrite is_expired_other_set in H by exact Hne. congruence.
+    + apply andb_prop in H. destruct H as [_ H]. rewrite forallb_forall in H. specialize (H k Hr). congruence.
+    + apply andb_prop in H. destruct H as [_ H]. rewrite forallb_forall in H. specialize (H k Hr).
+      unfold deleted_or_expired in H. apply orb_prop in H. destruct H as [H|H]; [|congruence].
+      apply N.eqb_eq in H. subst k'. apply Hdel. reflexivity.
+    + apply andb_prop in H. destruct H as [_ H]. rewrite forallb_forall in H. specialize (H k Hr). congruence.
+  - (* the rank invariant *)
+    unfold use_list. destruct (use_of o out) as [k'|] eqn:Eu; cbn [bump_use remove_key].
+    + destruct (N.eqb_spec k k') as [<-|Hne].
+      * unfold bump. rewrite behind_back by apply remove_key_self_notin. intros y [].
+      * unfold bump. apply behind_after_push; [exact Hkl|congruence|exact Hb].
+    + rewrite app_nil_r. exact Hb.
+Qed.
+
+Lemma last_cons {A} (a : A) l d : last (a :: l) d = last l a.
+Proof.
+  revert a d. induction l as [|b l IH]; intros a d; [reflexivity|].
+  change (last (a :: b :: l) d) with (last (b :: l) d). rewrite !IH. reflexivity.
+Qed.
+
+Lemma monitor_retain capacity k : forall h rh lru before outs presents U,
+  check_lru_from capacity rh lru before h outs presents = true ->
+  NoDup before -> incl before lru ->
+  In k before -> In k lru -> incl (behind k lru) U ->
+  (forall t, ~ In (t, ODel k) h) ->
+  (forall t v ttl, In (t, OSet k v ttl) h -> 0 <= ttl) ->
+  live_through k rh h ->
+  (length (nodup N.eq_dec (U ++ remove_key k (uses_of h outs))) < capacity)%nat ->
+  In k (last presents before).
+Proof.
+  induction h as [|[now o] h IH]; intros rh lru before outs presents U C ND Hi Hk Hkl Hb Hdel Hset Hlive Hlen.
+  - destruct outs, presents; cbn in C; try discriminate. exact Hk.
+  - destruct outs as [|out outs]; [discriminate|]. destruct presents as [|after presents]; [discriminate|].
+    cbn [check_lru_from] in C. apply andb_prop in C. destruct C as [C1 C2].
+    cbn [uses_of] in Hlen. rewrite remove_key_app, app_assoc in Hlen.
+    cbn [live_through] in Hlive. destruct Hlive as [Hl1 Hl2].
+    set (U' := U ++ remove_key k (use_list o out)) in *.
+    destruct (step_ok_keeps _ _ _ _ _ _ _ _ C1 Hi) as [ND' Hi'].
+    destruct (step_ok_retains capacity rh lru before now o out after k U C1 ND Hi Hk Hkl Hb) as [K1 [K2 K3]].
+    + intros ->. apply (Hdel now). left; reflexivity.
+    + intros v ttl ->. apply (Hset now v ttl). left; reflexivity.
+    + exact Hl1.
+    + fold U'. pose proof (nodup_length_mono U' (U' ++ remove_key k (uses_of h outs)) (incl_appl _ (incl_refl _))). lia.
+    + rewrite last_cons. apply (IH ((now, o) :: rh) (bump_use (use_of o out) lru) after outs presents U'); try assumption.
+      * intros t H. apply (Hdel t). right; exact H.
+      * intros t v ttl H. apply (Hset t v ttl). right; exact H.
+Qed.
+
+(* an accepted run, cut after a prefix *)
+Lemma check_lru_prefix capacity : forall h1 rh lru before outs1 pres1 h outs pres,
+  length outs1 = length h1 -> length pres1 = length h1 ->
+  NoDup before -> incl before lru ->
+  check_lru_from capacity rh lru before (h1 ++ h) (outs1 ++ outs) (pres1 ++ pres) = true ->
+  exists lru', NoDup (last pres1 before) /\ incl (last pres1 before) lru'
+               /\ check_lru_from capacity (rev h1 ++ rh) lru' (last pres1 before) h outs pres = true.
+Proof.
+  induction h1 as [|[now o] h1 IH]; intros rh lru before outs1 pres1 h outs pres L1 L2 ND Hi C.
+  - destruct outs1; [|discriminate]. destruct pres1; [|discriminate]. exists lru. cbn. tauto.
+  - destruct outs1 as [|out outs1]; [discriminate|]. destruct pres1 as [|after pres1]; [discriminate|].
+    cbn [app check_lru_from] in C. apply andb_prop in C. destruct C as [C1 C2].
+    destruct (step_ok_keeps _ _ _ _ _ _ _ _ C1 Hi) as [ND' Hi'].
+    cbn [length] in L1, L2.
+    destruct (IH ((now, o) :: rh) (bump_use (use_of o out) lru) after outs1 pres1 h outs pres) as [lru' [A1 [A2 A3]]];
+      try assumption; try lia.
+    exists lru'. rewrite last_cons. cbn [rev]. rewrite <- app_assoc. cbn [app]. tauto.
+Qed.
+
+(* Retention, for ANY observations the monitor accepts.  If the step (t, o)
+   after the prefix h1 uses k (Set k, or Get k with a value returned) and k is
+   present after it, and in the rest h2 key k is never the argument of Delete,
+   is never overwritten by an entry that is expired on arrival, its entry is
+   unexpired at the instant of every step, and fewer than `capacity` distinct
+   other keys are used, then k is present after the last step. *)
+Theorem monitor_retention capacity h1 t o h2 outs1 out outs2 pres1 after pres2 k :
+  check_lru capacity (h1 ++ (t, o) :: h2) (outs1 ++ out :: outs2) (pres1 ++ after :: pres2) = true ->
+  length outs1 = length h1 -> length pres1 = length h1 ->
+  use_of o out = Some k -> In k after ->
+  (forall t', ~ In (t', ODel k) h2) ->
+  (forall t' v ttl, In (t', OSet k v ttl) h2 -> 0 <= ttl) ->
+  live_through k ((t, o) :: rev h1) h2 ->
+  (length (nodup N.eq_dec (remove_key k (uses_of h2 outs2))) < capacity)%nat ->
+  In k (last pres2 after).
+Proof.
+  unfold check_lru. intros C L1 L2 Hu Hk Hdel Hset Hlive Hlen.
+  destruct (check_lru_prefix capacity h1 [] [] [] outs1 pres1 ((t, o) :: h2) (out :: outs2) (after :: pres2))
+    as [lru' [A1 [A2 A3]]]; try assumption; [constructor|intros y []|].
+  rewrite app_nil_r in A3. cbn [check_lru_from] in A3. apply andb_prop in A3. destruct A3 as [C1 C2].
+  destruct (step_ok_keeps _ _ _ _ _ _ _ _ C1 A2) as [ND' Hi']. rewrite Hu in C2, Hi'. cbn [bump_use] in C2, Hi'.
+  apply (monitor_retain capacity k h2 ((t, o) :: rev h1) (bump k lru') after outs2 pres2 []); try assumption.
+  - apply bump_In. right; reflexivity.
+  - unfold bump. rewrite behind_back by apply remove_key_self_notin. intros y [].
+Qed.
+
 (* ------------------------------------------------------------ concurrent use under the cache's mutex *)
 
 (* Instantiation of Proofs/Locked.v.  An operation of a thread is an event
